@@ -16,8 +16,8 @@ fn space(tier: Tier) -> &'static Space {
     static Q: OnceLock<Space> = OnceLock::new();
     static T: OnceLock<Space> = OnceLock::new();
     match tier {
-        Tier::Quick => Q.get_or_init(|| Space::new(&[("FC", 3), ("FB", 3), ("FT", 2), ("FA", 2), ("FU", 0), ("FL", 2)])),
-        Tier::Thorough => T.get_or_init(|| Space::new(&[("FC", 4), ("FB", 4), ("FT", 3), ("FA", 3), ("FS", 2), ("FU", 0), ("FL", 3)])),
+        Tier::Quick => Q.get_or_init(|| Space::new(&[("FC", 3), ("FB", 3), ("FT", 2), ("FA", 2), ("FU", 0), ("FL", 2), ("FW", 0)])),
+        Tier::Thorough => T.get_or_init(|| Space::new(&[("FC", 4), ("FB", 4), ("FT", 3), ("FA", 3), ("FS", 2), ("FU", 0), ("FL", 3), ("FW", 0)])),
     }
 }
 fn period(tier: Tier) -> usize {
@@ -59,7 +59,7 @@ impl Prop for C12 {
         let mut outcome = "steady".to_string();
         let mut maxc = (0usize, 0usize);
         let inputs = inputs_for(0, g.inputs);
-        match Run::start(Backend::Vm, &src, g.family == "FT" || g.family == "FU" || g.family == "FL") {
+        match Run::start(Backend::Vm, &src, ["FT", "FU", "FL", "FW"].contains(&g.family)) {
             Err(RunErr::Compile(_)) => outcome = "rejected".into(),
             Err(RunErr::Crash(m)) => outcome = format!("start_crash_{}", crash_label(&m)),
             Ok(mut r) => {
